@@ -22,9 +22,18 @@ TBuild == /\ Is("Build") /\ (HRefuse \/ HBuild) /\ act'.refused = E.refused /\ (
 \* bytes between two segments: exactly the predicted range, all of them the device pattern - the leading `rest` bytes, which are the
 \* unused part of the slot of a fixed-size segment whose payload is shorter than the slot, just like the bytes between two slots
 TGap == /\ Is("Gap") /\ HGap /\ E.from = act'.from /\ E.to = act'.to /\ E.rest = act'.rest /\ E.restPat /\ E.pat /\ Adv
+\* traces of the lane "container kinds" (BimgKinds) name in their header the kind of the application container, the form in which the
+\* configuration supplied it (binary file / YAML configuration of the container: the segment holds the container object) and the route; the
+\* payload length of the header is the length of the container's STANDALONE export.  What lies in the image at the container's place is that
+\* container: byte-identical when the construction is deterministic, else equal outside the signature with a signature that verifies
+\* (facts evaluated by the executor with an independent trusted base) - whatever the form and the route
+HasKd == "kd" \in DOMAIN Traces[tid]
+Kd == Traces[tid].kd
+ContOk == HasKd /\ Segs[E.i].cont => /\ Kd.form \in {"bin", "yaml"} /\ Kd.route \in {"api", "cli"}
+                                      /\ (IF Kd.det THEN E.same ELSE E.sameOutside /\ E.acc)
 \* the next included segment: its payload is found at the cursor, complete, and the API reports the same offset and length
 TSeg == /\ Is("Seg") /\ HSeg /\ E.i = act'.i /\ E.at = act'.at /\ E.len = act'.len /\ E.ok
-        /\ E.apiOff = E.at /\ E.apiLen = E.len /\ Adv
+        /\ E.apiOff = E.at /\ E.apiLen = E.len /\ ContOk /\ Adv
 TEnd == /\ Is("End") /\ HEnd /\ E.total = act'.total /\ E.apiLen = act'.total /\ Adv
 TParse == /\ Is("Parse") /\ HParse /\ E.ok /\ Adv
 \* the parsed segment starts with the supplied bytes; anything behind them is fill
